@@ -17,6 +17,7 @@ pub enum Op {
     QueryClone(usize),            // equivalence check asked of a fresh clone (leaves forest untouched)
     Classes(usize, Vec<usize>),   // instance, list
     CloneTo(usize, usize),        // src, dst
+    CloneFrom(usize, usize),      // src, dst: dst.clone_from(&src) into an instance that is already in use
 }
 
 impl Op {
@@ -28,6 +29,7 @@ impl Op {
             Op::QueryClone(i) => json!(["query_clone", i]),
             Op::Classes(i, l) => json!(["classes", i, l]),
             Op::CloneTo(s, d) => json!(["clone", s, d]),
+            Op::CloneFrom(s, d) => json!(["clone_from", s, d]),
         }
     }
     pub fn from_json(v: &Value) -> Option<Op> {
@@ -40,6 +42,7 @@ impl Op {
             "query_clone" => Op::QueryClone(u(1)?),
             "classes" => Op::Classes(u(1)?, a.get(2)?.as_array()?.iter().filter_map(|x| x.as_u64()).map(|x| x as usize).collect()),
             "clone" => Op::CloneTo(u(1)?, u(2)?),
+            "clone_from" => Op::CloneFrom(u(1)?, u(2)?),
             _ => return None,
         })
     }
@@ -86,6 +89,8 @@ pub trait Uf: Clone {
     fn unite_(&mut self, a: usize, b: usize);
     fn find_(&self, a: usize) -> usize; // representative as universe index, usize::MAX if not a universe element
     fn classes_(&self, l: &[usize]) -> Vec<Vec<usize>>;
+    /// `Clone::clone_from` of the wrapped library type (a type may override it)
+    fn clone_from_(&mut self, src: &Self);
     fn kind() -> &'static str;
 }
 
@@ -137,6 +142,9 @@ macro_rules! gen_uf {
                 let elems: Vec<$t> = l.iter().map(|&k| <$t as Elem>::make(k)).collect();
                 self.0.classes(&elems).iter().map(|c| c.iter().map(|x| index_of::<$t>(x)).collect()).collect()
             }
+            fn clone_from_(&mut self, src: &Self) {
+                self.0.clone_from(&src.0);
+            }
             fn kind() -> &'static str {
                 $label
             }
@@ -163,6 +171,9 @@ impl Uf for UfInt {
     }
     fn classes_(&self, l: &[usize]) -> Vec<Vec<usize>> {
         self.0.classes(l)
+    }
+    fn clone_from_(&mut self, src: &Self) {
+        self.0.clone_from(&src.0);
     }
     fn kind() -> &'static str {
         "IntPartition"
@@ -249,6 +260,13 @@ pub fn run_history<U: Uf>(ctx: &mut Ctx, universe: usize, ops: &[Op]) -> (u64, b
                     let c = lib[*s].clone();
                     lib[*d] = c;
                 }
+                Op::CloneFrom(s, d) => {
+                    if s != d {
+                        let mut target = std::mem::replace(&mut lib[*d], U::new_());
+                        target.clone_from_(&lib[*s]);
+                        lib[*d] = target;
+                    }
+                }
             }
             bad
         });
@@ -320,7 +338,7 @@ pub fn run_history<U: Uf>(ctx: &mut Ctx, universe: usize, ops: &[Op]) -> (u64, b
                     }
                 }
             }
-            Op::CloneTo(s, d) => {
+            Op::CloneTo(s, d) | Op::CloneFrom(s, d) => {
                 model[*d] = model[*s].clone();
                 last_rep[*d] = vec![None; universe]; // a clone may pick its own representatives
                 cloned[*d] = true;
@@ -386,7 +404,7 @@ fn random_history(rng: &mut Rng, universe: usize, len: usize) -> Vec<Op> {
             // (i) full queries after every mutation
             0 => {
                 match rng.below(10) {
-                    0 => ops.push(Op::CloneTo(i, rng.below(INSTANCES))),
+                    0 => ops.push(if rng.chance(1, 2) { Op::CloneTo(i, rng.below(INSTANCES)) } else { Op::CloneFrom(i, rng.below(INSTANCES)) }),
                     1 => {
                         let l = random_list(rng, universe);
                         ops.push(Op::Classes(i, l));
@@ -399,7 +417,7 @@ fn random_history(rng: &mut Rng, universe: usize, len: usize) -> Vec<Op> {
             // (ii) queries through fresh clones only: the forests are never flattened by the monitor
             1 => {
                 match rng.below(12) {
-                    0 => ops.push(Op::CloneTo(i, rng.below(INSTANCES))),
+                    0 => ops.push(if rng.chance(1, 2) { Op::CloneTo(i, rng.below(INSTANCES)) } else { Op::CloneFrom(i, rng.below(INSTANCES)) }),
                     1 => ops.push(Op::QueryClone(i)),
                     2 => ops.push(Op::Find(i, a)),
                     _ => ops.push(Op::Unite(i, a, b)),
@@ -414,7 +432,7 @@ fn random_history(rng: &mut Rng, universe: usize, len: usize) -> Vec<Op> {
                     ops.push(Op::Unite(i, a, b));
                 }
                 if rng.chance(1, 3) {
-                    ops.push(Op::CloneTo(i, rng.below(INSTANCES)));
+                    ops.push(if rng.chance(1, 2) { Op::CloneTo(i, rng.below(INSTANCES)) } else { Op::CloneFrom(i, rng.below(INSTANCES)) });
                 }
                 for _ in 0..(1 + rng.below(6)) {
                     ops.push(Op::Find(i, rng.below(universe)));
@@ -429,7 +447,12 @@ fn random_history(rng: &mut Rng, universe: usize, len: usize) -> Vec<Op> {
 }
 
 fn random_list(rng: &mut Rng, universe: usize) -> Vec<usize> {
-    // duplicate-free lists are the judged domain
+    // one list in three repeats elements (sampled with replacement, possibly elements the instance has never
+    // been asked about): every occurrence has to be listed, in its class, in query order
+    if rng.chance(1, 3) {
+        let len = 1 + rng.below(2 * universe);
+        return (0..len).map(|_| rng.below(universe)).collect();
+    }
     let mut l: Vec<usize> = (0..universe).collect();
     rng.shuffle(&mut l);
     l.truncate(1 + rng.below(universe));
@@ -448,9 +471,12 @@ fn op_alphabet(universe: usize) -> Vec<Op> {
         ops.push(Op::QueryAll(i));
         ops.push(Op::QueryClone(i));
         ops.push(Op::Classes(i, (0..universe).rev().collect()));
+        ops.push(Op::Classes(i, vec![universe - 1, universe - 1, 0, universe - 1, 1]));
     }
     ops.push(Op::CloneTo(0, 1));
     ops.push(Op::CloneTo(1, 0));
+    ops.push(Op::CloneFrom(0, 1));
+    ops.push(Op::CloneFrom(1, 0));
     ops
 }
 
